@@ -11,7 +11,7 @@ for d in seeded/*/; do
   scr=/tmp/seedrun_$id
   rm -rf $scr; mkdir -p $scr; cp -r /repo/PyXAB $scr/
   (cd $scr && git init -q . && git apply $V/$d/patch.diff) || { echo "$id: patch does not apply" >> $out; rm -rf $scr; continue; }
-  r=$(PYVC_REPO=$scr ./check $prop --quick 2>&1 | grep -E "VIOLATION|failed obligation|UNDECIDED|CHECKER|contract not|property=" | head -8 | tr '\n' '|')
+  r=$(PYVC_REPO=$scr ./check $prop --quick 2>&1 | grep -E "^VIOLATION|^  failed obligation|^UNDECIDED|^CHECKER|^  contract not|^  found by|^property=" | awk '/^property=/{last=$0; next} n<6{print; n++} END{print last}' | tr '\n' '|')
   rm -rf $scr
   echo "$id [$prop]: $r" >> $out
 done
